@@ -397,35 +397,56 @@ def _schemas(ctx, py):
     okc = all(getattr(U, k) == v for k, v in UTIL_CONSTANTS.items())
     ctx.ob("C19.schema.constants", "c", okc, "exact-compare", 0.0, "column-name constants of pyins.util equal the documented sets of pyins/__init__.py",
            cex=None if okc else dict(differs=[k for k, v in UTIL_CONSTANTS.items() if getattr(U, k) != v]))
-    for (m, f), want in SCHEMAS.items():
-        src = source_of(m)
-        tree = ast.parse(src)
-        fn = None
-        if "." in f:
-            cname, mname = f.split(".")
-            for n in tree.body:
-                if isinstance(n, ast.ClassDef) and n.name == cname:
-                    fn = next((x for x in n.body if isinstance(x, ast.FunctionDef) and x.name == mname), None)
-        else:
-            fn = next((n for n in tree.body if isinstance(n, ast.FunctionDef) and n.name == f), None)
-        got = []
-        if fn is not None:
-            for c in ast.walk(fn):
-                if isinstance(c, ast.Call) and ast.unparse(c.func) in ("pd.DataFrame", "pd.Series"):
-                    for k in c.keywords:
-                        if k.arg == "columns":
-                            got.append(ast.unparse(k.value))
-        ns = dict(vars(getattr(py, m)))
+    # the tables the public functions RETURN, whichever private helper builds them: column sets and time index by kind
+    C = UTIL_CONSTANTS
+    d = _data(py)
+    S, SIM, EMm, F, IS, M, T = py.strapdown, py.sim, py.error_model, py.filters, py.inertial_sensor, py.measurements, py.transform
+    inc_cols = ["dt"] + C["THETA_COLS"] + C["DV_COLS"]
+    cases = []
 
-        def val(e):
-            try:
-                v = eval(e, ns)          # column constants / literal lists: compare VALUES, not spellings
-                return ("value", tuple(v))
-            except Exception:
-                return ("text", e.replace(" ", ""))
-        ok = sorted(map(val, got)) == sorted(map(val, want))
-        ctx.ob("C19.schema.%s.%s" % (m, f), "c", ok, "ast", 0.0, "tables are built with columns=%s" % got if ok else "columns= expressions %s, documented %s" % (got, want),
-               cex=None if ok else dict(found=got, documented=want))
+    def table(name, make, cols, index=None, index_name="time"):
+        cases.append((name, make, cols, index, index_name))
+    table("strapdown.compute_increments_from_imu(rate)", lambda: S.compute_increments_from_imu(d["imu"], "rate"), inc_cols, list(d["imu"].index[1:]))
+    table("strapdown.compute_increments_from_imu(increment)", lambda: S.compute_increments_from_imu(d["imu"], "increment"), inc_cols, list(d["imu"].index[1:]))
+    it = S.Integrator(d["pva"])
+    table("strapdown.Integrator.integrate", lambda: it.integrate(d["inc"].iloc[:5]), C["TRAJECTORY_COLS"], [d["pva"].name] + list(d["inc"].index[:5]))
+    table("strapdown.Integrator.trajectory", lambda: it.trajectory, C["TRAJECTORY_COLS"], [d["pva"].name] + list(d["inc"].index[:5]))
+    tt = np.arange(0, 3, 0.1)
+    g = lambda k: SIM.generate_imu(tt, np.column_stack([55 + 1e-5 * tt, 37 + 2e-5 * tt, 100 + 0.1 * tt]), np.column_stack([0 * tt, 2 * np.sin(tt), 40 + 3 * tt]), sensor_type="rate")[k]
+    table("sim.generate_imu[trajectory]", lambda: g(0), C["TRAJECTORY_COLS"], list(tt))
+    table("sim.generate_imu[imu]", lambda: g(1), C["GYRO_COLS"] + C["ACCEL_COLS"], list(tt))
+    table("sim.generate_position_measurements", lambda: getattr(SIM.generate_position_measurements(d["traj"], 2.0, rng=1), "data", SIM.generate_position_measurements(d["traj"], 2.0, rng=1)), C["LLA_COLS"], list(d["traj"].index))
+    table("sim.generate_ned_velocity_measurements", lambda: getattr(SIM.generate_ned_velocity_measurements(d["traj"], 0.2, rng=1), "data", SIM.generate_ned_velocity_measurements(d["traj"], 0.2, rng=1)), C["VEL_COLS"], list(d["traj"].index))
+    table("sim.generate_body_velocity_measurements", lambda: getattr(SIM.generate_body_velocity_measurements(d["traj"], 0.2, rng=1), "data", SIM.generate_body_velocity_measurements(d["traj"], 0.2, rng=1)), ["VX", "VY", "VZ"], list(d["traj"].index))
+    pe = lambda k: EMm.propagate_errors(d["traj"], d["err"], np.array([1e-5, 2e-5, -1e-5]), np.array([1e-2, -1e-2, 2e-2]))[k]
+    table("error_model.propagate_errors[trajectory error]", lambda: pe(0), C["TRAJECTORY_ERROR_COLS"], list(d["traj"].index))
+    table("error_model.propagate_errors[model error]", lambda: pe(1), EMm.InsErrorModel().states, list(d["traj"].index))
+    table("transform.lla_to_ned(DataFrame)", lambda: T.lla_to_ned(d["traj"]), C["NED_COLS"], list(d["traj"].index))
+    gm, am = IS.EstimationModel(bias_sd=[1e-4, 0, 1e-4]), IS.EstimationModel(bias_sd=1e-2, noise=1e-3)
+    meas = [M.Position(d["pos"], 2.0), M.NedVelocity(d["vel"], 0.3)]
+    rfb = F.run_feedback_filter(d["pva"], 5, 0.5, 1, 2, d["inc"], gm, am, measurements=meas, time_step=0.5)
+    rff = F.run_feedforward_filter(d["traj"], d["traj"], 5, 0.5, 1, 2, gm, am, measurements=meas, increments=d["inc"], time_step=0.5)
+    for tag, r in (("feedback", rfb), ("feedforward", rff)):
+        table("filters.run_%s_filter[trajectory]" % tag, lambda r=r: r.trajectory, C["TRAJECTORY_COLS"])
+        table("filters.run_%s_filter[trajectory_sd]" % tag, lambda r=r: r.trajectory_sd, C["TRAJECTORY_ERROR_COLS"])
+        table("filters.run_%s_filter[gyro]" % tag, lambda r=r: r.gyro, gm.states)
+        table("filters.run_%s_filter[gyro_sd]" % tag, lambda r=r: r.gyro_sd, gm.states)
+        table("filters.run_%s_filter[accel]" % tag, lambda r=r: r.accel, am.states)
+        table("filters.run_%s_filter[accel_sd]" % tag, lambda r=r: r.accel_sd, am.states)
+    for name, make, cols, index, index_name in cases:
+        try:
+            tab = make()
+            bad = []
+            if list(tab.columns) != list(cols):
+                bad.append("columns %s, documented %s" % (list(tab.columns), list(cols)))
+            if index is not None and [float(x) for x in tab.index] != [float(x) for x in index]:
+                bad.append("time index differs from the documented one (%d vs %d stamps)" % (len(tab.index), len(index)))
+            if not tab.index.is_monotonic_increasing:
+                bad.append("time index not increasing")
+        except Exception as exc:
+            bad = ["raised %r" % (exc,)]
+        ctx.ob("C19.schema.%s" % name, "c", not bad, "native-call", 0.0, "returned table: columns %s, time index as documented" % list(cols) if not bad else "; ".join(bad),
+               cex=None if not bad else dict(function=name, what=bad), native=None if not bad else dict(reproduced=True, what=bad))
 
 
 # -----------------------------------------------------------------------------------------------
